@@ -179,7 +179,7 @@ func mismatchClass(d string) string {
 
 func c12Generated(c *run.C) {
 	r := c.R
-	t, v := genTypeValue(r, gen.GoTypeOpts{MaxDepth: 4, Extra: zoo.Supported}, gen.GoValueOpts{BadUTF8: true, SpecialF: true})
+	t, v := genTypeValue(r, gen.GoTypeOpts{MaxDepth: 4, Arrays: true, Extra: zoo.Supported}, gen.GoValueOpts{BadUTF8: true, SpecialF: true})
 	tags := typeTags(t)
 	c.Begin(goCase{Type: t.String(), Value: valueString(v), Tags: tags})
 	for _, tg := range tags {
